@@ -354,6 +354,7 @@ def handler_body(part, m):
     lines = ["let attrs = echo::<%s>(\"%s\", %s, &ctx.env, %s, &[%s])?;" % (ety, hid, store, info, args)]
     if kind != "query":
         lines.append('ctx.deps.storage.set(b"ran", b"%s");' % hid)
+        lines.append('ctx.deps.storage.set(b"last", show_pairs(&attrs).as_bytes());')
         lines.append("Ok(resp_of(attrs))")
     else:
         lines.append("Ok(%s::from(attrs))" % RESP_TYPES[m["ret_kind"]])
@@ -552,11 +553,153 @@ def render_run(prog):
     A("                }")
     A("            }")
     L.extend(render_helper_ops(prog))
+    L.extend(render_mt_ops(prog))
     L.extend(render_reply_ops(prog))
     A('            _ => "bad-op".into(),')
     A("        }")
     A("    }")
     return "\n".join(L)
+
+
+def render_mt_ops(prog):
+    """multitest histories: `mtp` runs a history through the generated proxies, `mtr` runs a history of raw JSON operations.
+    steps are separated by `;`, fields by `:`; after every step the whole chain state is printed"""
+    parts = part_paths(prog)
+    ct = prog["contract"]
+    L = []
+    A = L.append
+    inst = [m for m in ct["methods"] if m["msg"]["kind"] == "instantiate"][0]
+    mig = [m for m in ct["methods"] if m["msg"]["kind"] == "migrate"]
+
+    def tup(m):
+        tys = [gen.ty_text(a["ty"], " ") for a in m["args"]]
+        return "(%s)" % "".join(t + ", " for t in tys), "".join(", a.%d.clone()" % i for i in range(len(tys))), len(tys)
+
+    def with_args(m, expr_fn, indent):
+        t, call_args, n = tup(m)
+        if n:
+            return '%smatch from_json::<%s>(&unhex(f[f.len() - 1])) { Ok(a) => { %s } Err(_) => "bad-args".to_string() }' % (indent, t, expr_fn(call_args))
+        return "%s{ %s }" % (indent, expr_fn(""))
+
+    A('            "mtp" | "mtr" => {')
+    A("                let app = mt_app();")
+    A("                let mut codes: Vec<sv::mt::CodeId<'_, Ct, MtApp>> = vec![];")
+    A("                let mut raw_codes: Vec<u64> = vec![];")
+    A("                let mut contracts: Vec<Option<Addr>> = vec![];")
+    A("                let mut outs: Vec<String> = vec![];")
+    A("                for step in rest.split(';') {")
+    A("                    let f: Vec<&str> = step.split(':').collect();")
+    A("                    let slot = |i: &str| -> Option<Addr> { contracts.get(i.parse::<usize>().unwrap_or(usize::MAX)).cloned().flatten() };")
+    A("                    let mut new_code: Option<sv::mt::CodeId<'_, Ct, MtApp>> = None;")
+    A("                    let mut new_raw_code: Option<u64> = None;")
+    A("                    let mut new_contract: Option<Option<Addr>> = None;")
+    A("                    let r = std::panic::catch_unwind(std::panic::AssertUnwindSafe(|| -> String { match (op, f[0]) {")
+    # ---- store
+    A('                        ("mtp", "store") => { let c = sv::mt::CodeId::<Ct, _>::store_code(&app); let s = format!("code={}", c.code_id()); new_code = Some(c); s }')
+    A('                        ("mtr", "store") => { let id = app.app_mut().store_code(Box::new(Ct::new())); new_raw_code = Some(id); format!("code={}", id) }')
+    A('                        (_, "setfail") => match slot(f[1]) { Some(a) => { set_fail(&app, &a, &String::from_utf8_lossy(&unhex(f[2]))); "ok".into() } None => "no-contract".into() },')
+    # ---- proxy instantiate: inst:<code>:<sender>:<setters>:<argshex>
+    A('                        ("mtp", "inst") => {')
+    A('                            let code = match codes.get(f[1].parse::<usize>().unwrap_or(usize::MAX)) { Some(c) => c, None => return "no-code".into() };')
+    A("                            let sender = acct(f[2]);")
+    A("                            enum St { L(String), A(Option<String>), F(Vec<Coin>), S(Option<Vec<u8>>) }")
+    A("                            let sts: Vec<St> = f[3].split('/').filter(|x| !x.is_empty() && *x != \"-\").map(|x| { let (k, v) = x.split_once('=').unwrap_or((x, \"\")); match k {")
+    A('                                "l" => St::L(String::from_utf8_lossy(&unhex(v)).to_string()),')
+    A('                                "a" => St::A(if v == "-" { None } else { Some(acct(v).to_string()) }),')
+    A('                                "f" => St::F(coins_of(v)),')
+    A('                                _ => St::S(if v == "-" { None } else { Some(unhex(v)) }),')
+    A("                            } }).collect();")
+
+    def inst_expr(call_args):
+        return ("let mut p = code.instantiate(%s); for s in &sts { p = match s { St::L(l) => p.with_label(l.as_str()), St::A(Some(a)) => p.with_admin(a.as_str()), St::A(None) => p.with_admin(None), "
+                "St::F(c) => p.with_funds(c.as_slice()), St::S(Some(b)) => p.with_salt(b.as_slice()), St::S(None) => p.with_salt(None) }; } "
+                "match p.call(&sender) { Ok(px) => { let s = format!(\"ok addr={}\", px.contract_addr); new_contract = Some(Some(px.contract_addr.clone())); s } Err(e) => { new_contract = Some(None); format!(\"err {}\", e) } }") % call_args.lstrip(", ")
+    A(with_args(inst, inst_expr, "                            "))
+    A("                        }")
+    # ---- raw instantiate: inst:<code>:<sender>:<funds>:<labelhex>:<admin|->:<salthex|->:<bodyhex>
+    A('                        ("mtr", "inst") => {')
+    A('                            let code_id = match raw_codes.get(f[1].parse::<usize>().unwrap_or(usize::MAX)) { Some(c) => *c, None => return "no-code".into() };')
+    A("                            let sender = acct(f[2]);")
+    A('                            let admin = if f[5] == "-" { None } else { Some(acct(f[5]).to_string()) };')
+    A("                            let label = String::from_utf8_lossy(&unhex(f[4])).to_string();")
+    A("                            let body = Binary::from(unhex(f[7]));")
+    A('                            let msg = if f[6] == "-" { WasmMsg::Instantiate { admin, code_id, msg: body, funds: coins_of(f[3]), label } }')
+    A("                                      else { WasmMsg::Instantiate2 { admin, code_id, label, msg: body, funds: coins_of(f[3]), salt: Binary::from(unhex(f[6])) } };")
+    A("                            match raw_wasm(&app, &sender, msg) {")
+    A("                                Ok(r) => match sylvia::cw_utils::parse_instantiate_response_data(r.data.clone().unwrap_or_default().as_slice()) {")
+    A('                                    Ok(d) => { new_contract = Some(Some(Addr::unchecked(d.contract_address.clone()))); format!("ok addr={}", d.contract_address) }')
+    A('                                    Err(e) => { new_contract = Some(None); format!("err bad-instantiate-data {}", e) }')
+    A("                                },")
+    A("                                Err(e) => { new_contract = Some(None); show_any_err(&e) }")
+    A("                            }")
+    A("                        }")
+    # ---- proxy exec / query / sudo
+    for kind, opname in (("exec", "exec"), ("query", "query"), ("sudo", "sudo")):
+        A('                        ("mtp", "%s") => {' % opname)
+        A('                            let addr = match slot(f[1]) { Some(a) => a, None => return "no-contract".into() };')
+        A("                            let proxy: Proxy<'_, MtApp, Ct> = Proxy::new(addr.clone(), &app);")
+        if kind == "exec":
+            A("                            let sender = acct(f[4]);")
+            A("                            let coins = coins_of(f[5]);")
+        A("                            match (f[2], f[3]) {")
+        for idx, svp, label, methods in parts:
+            for m in methods:
+                if m["msg"]["kind"] != kind:
+                    continue
+                cname = casing.cc_snake(casing.upper_camel(m["name"]))
+                if svp == "sv":
+                    tr = "<Proxy<'_, MtApp, Ct> as sv::mt::CtProxy<'_, MtApp>>"
+                else:
+                    it = prog["ifaces"][idx]
+                    tr = "<Proxy<'_, MtApp, Ct> as %s::sv::mt::%sProxy<MtApp, Empty>>" % (it["module"], it["name"])
+                if kind == "exec":
+                    fn = lambda ca, tr=tr, cname=cname: ('let ep = %s::%s(&proxy%s); let ep = if f[5] == "-" { ep } else { ep.with_funds(coins.as_slice()) }; '
+                                                          'match ep.call(&sender) { Ok(r) => show_app_resp(&r), Err(e) => format!("err {}", e) }') % (tr, cname, ca)
+                elif kind == "query":
+                    fn = lambda ca, tr=tr, cname=cname: 'match %s::%s(&proxy%s) { Ok(r) => format!("ok {}", j(&r)), Err(e) => format!("err {}", e) }' % (tr, cname, ca)
+                else:
+                    fn = lambda ca, tr=tr, cname=cname: 'match %s::%s(&proxy%s) { Ok(r) => show_app_resp(&r), Err(e) => format!("err {}", e) }' % (tr, cname, ca)
+                A('                                ("%d", "%s") =>' % (idx, m["name"]))
+                A(with_args(m, fn, "                                    ") + ",")
+        A('                                _ => "bad-op".into(),')
+        A("                            }")
+        A("                        }")
+    # ---- proxy migrate: mig:<cidx>:<sender>:<newcode>:<argshex>
+    A('                        ("mtp", "mig") => {')
+    if mig:
+        A('                            let addr = match slot(f[1]) { Some(a) => a, None => return "no-contract".into() };')
+        A("                            let proxy: Proxy<'_, MtApp, Ct> = Proxy::new(addr.clone(), &app);")
+        A("                            let sender = acct(f[2]);")
+        A('                            let new_code_id = match codes.get(f[3].parse::<usize>().unwrap_or(usize::MAX)) { Some(c) => c.code_id(), None => 999 };')
+        cname = casing.cc_snake(casing.upper_camel(mig[0]["name"]))
+        fn = lambda ca: ("match <Proxy<'_, MtApp, Ct> as sv::mt::CtProxy<'_, MtApp>>::%s(&proxy%s).call(&sender, new_code_id) { Ok(r) => show_app_resp(&r), Err(e) => format!(\"err {}\", e) }" % (cname, ca))
+        A(with_args(mig[0], fn, "                            "))
+    else:
+        A('                            "no-migrate".to_string()')
+    A("                        }")
+    # ---- raw exec / query / sudo / migrate
+    A('                        ("mtr", "exec") => { let addr = match slot(f[1]) { Some(a) => a, None => return "no-contract".into() };')
+    A("                            match raw_wasm(&app, &acct(f[2]), WasmMsg::Execute { contract_addr: addr.to_string(), msg: Binary::from(unhex(f[4])), funds: coins_of(f[3]) }) {")
+    A("                                Ok(r) => show_app_resp(&strip_exec_data(r)), Err(e) => show_any_err(&e) } }")
+    A('                        ("mtr", "query") => { let addr = match slot(f[1]) { Some(a) => a, None => return "no-contract".into() }; raw_query(&app, &addr, unhex(f[2])) }')
+    A('                        ("mtr", "sudo") => { let addr = match slot(f[1]) { Some(a) => a, None => return "no-contract".into() };')
+    A("                            match raw_sudo(&app, &addr, unhex(f[2])) { Ok(r) => show_app_resp(&r), Err(e) => show_any_err(&e) } }")
+    A('                        ("mtr", "mig") => { let addr = match slot(f[1]) { Some(a) => a, None => return "no-contract".into() };')
+    A('                            let new_code_id = match raw_codes.get(f[3].parse::<usize>().unwrap_or(usize::MAX)) { Some(c) => *c, None => 999 };')
+    A("                            match raw_wasm(&app, &acct(f[2]), WasmMsg::Migrate { contract_addr: addr.to_string(), new_code_id, msg: Binary::from(unhex(f[4])) }) {")
+    A("                                Ok(r) => show_app_resp(&r), Err(e) => show_any_err(&e) } }")
+    A('                        _ => "bad-op".into(),')
+    A("                    } }));")
+    A("                    if let Some(c) = new_code { codes.push(c); }")
+    A("                    if let Some(c) = new_raw_code { raw_codes.push(c); }")
+    A("                    if let Some(c) = new_contract { contracts.push(c); }")
+    A('                    else if f[0] == "inst" && r.is_err() { contracts.push(None); }')
+    A('                    let r = r.unwrap_or_else(|_| "PANIC".to_string());')
+    A('                    outs.push(canon_addrs(&format!("{} @@ {}", r, show_chain(&app, &contracts)), &contracts));')
+    A("                }")
+    A('                outs.join(" ;; ")')
+    A("            }")
+    return L
 
 
 def render_helper_ops(prog):
